@@ -19,14 +19,14 @@ import (
 // its cached response runs out, is re-fetched, is evicted by the cache's own timer and is flushed by the Cleanup of
 // another validator instance.
 type OCSPCase struct {
-	Threads  int  `json:"threads"`
-	CacheUS  int  `json:"cache_us"` // default_cache_duration in microseconds (the responder sends no nextUpdate)
-	Lookups  int  `json:"lookups"`  // per goroutine
-	Certs    int  `json:"certs"`    // 1: all goroutines use one certificate, 2: a second one (always revoked) is mixed in
-	Flusher  bool `json:"flusher"`  // another validator instance is provisioned and cleaned up repeatedly meanwhile
-	Flip     bool `json:"flip"`     // the responder alternates good / revoked for certificate 1
-	PauseUS  int  `json:"pause_us"` // pause between lookups of one goroutine
-	NextUpd  bool `json:"next_update"`
+	Threads int  `json:"threads"`
+	CacheUS int  `json:"cache_us"` // default_cache_duration in microseconds (the responder sends no nextUpdate)
+	Lookups int  `json:"lookups"`  // per goroutine
+	Certs   int  `json:"certs"`    // 1: all goroutines use one certificate, 2: a second one (always revoked) is mixed in
+	Flusher bool `json:"flusher"`  // another validator instance is provisioned and cleaned up repeatedly meanwhile
+	Flip    bool `json:"flip"`     // the responder alternates good / revoked for certificate 1
+	PauseUS int  `json:"pause_us"` // pause between lookups of one goroutine
+	NextUpd bool `json:"next_update"`
 }
 
 func genOCSP(t *rapid.T) OCSPCase {
@@ -87,11 +87,13 @@ func runOCSPScenario(c OCSPCase) (res childResult) {
 	defer o.Close()
 	pki := world.NewSimplePKI(name, "p256a", "p256b")
 	leaf1 := pki.Leaf("0d", nil, []string{o.URL("/ocsp")})
-	leaf2 := pki.Leaf("0f", nil, []string{o.URL("/ocsp2")})
+	// the second certificate comes from ANOTHER CA: lookups of certificates of two issuers overlap
+	pki2 := world.NewSimplePKI(name+" second ca", "p256c", "")
+	leaf2 := pki2.Leaf("0f", nil, []string{o.URL("/ocsp2")})
 	responder := world.NewResponder(o, "/ocsp", world.NewOCSPParties(name, pki.Issuer(), leaf1), world.OCSPAnswer{Kind: "good"})
-	world.NewResponder(o, "/ocsp2", world.NewOCSPParties(name+"2", pki.Issuer(), leaf2), world.OCSPAnswer{Kind: "revoked"})
+	world.NewResponder(o, "/ocsp2", world.NewOCSPParties(name+"2", pki2.Issuer(), leaf2), world.OCSPAnswer{Kind: "revoked"})
 	chk := world.NewOCSPChecker(world.OCSPOpts{Strict: true, Cache: time.Duration(c.CacheUS) * time.Microsecond})
-	ch1, ch2 := pki.ChainFor(leaf1), pki.ChainFor(leaf2)
+	ch1, ch2 := pki.ChainFor(leaf1), pki2.ChainFor(leaf2)
 	var wg sync.WaitGroup
 	var stop atomic.Bool
 	for g := 0; g < c.Threads; g++ {
@@ -210,10 +212,10 @@ func runOCSPCase(c OCSPCase, x *ev.Ctx) error {
 }
 
 var ocspSpec = ev.Spec[OCSPCase]{
-	ID:  "C13",
-	Gen: genOCSP,
-	Run: runOCSPCase,
-	Rule: "OCSP lookups concurrently with cache expiry: 2..16 goroutines look up the same certificate 300..4000 times each (at most 16000 lookups per case) (optionally mixed with a second certificate whose responder always answers revoked) through the public IsRevoked while default_cache_duration is 0.2..20 ms (the responder sends no nextUpdate), so the cached response keeps running out, is deleted, re-fetched and evicted by the cache's timer; optionally another validator instance is provisioned and cleaned up meanwhile (its Cleanup flushes the process-wide cache) and the responder flips good/revoked. Own child process per case, built with -race. Oracles: every call returns within the watchdog, no panic, the race log is empty, verdicts are ones a sequential order allows (second certificate always revoked; first certificate ok, or revoked only if the responder flips; never an error while the responder is reachable). Non-trivial: the responder was asked more than once (the cache expired during the run).",
+	ID:          "C13",
+	Gen:         genOCSP,
+	Run:         runOCSPCase,
+	Rule:        "OCSP lookups concurrently with cache expiry: 2..16 goroutines look up the same certificate 300..4000 times each (at most 16000 lookups per case) (optionally mixed with a second certificate, issued by another CA, whose responder always answers revoked) through the public IsRevoked while default_cache_duration is 0.2..20 ms (the responder sends no nextUpdate), so the cached response keeps running out, is deleted, re-fetched and evicted by the cache's timer; optionally another validator instance is provisioned and cleaned up meanwhile (its Cleanup flushes the process-wide cache) and the responder flips good/revoked. Own child process per case, built with -race. Oracles: every call returns within the watchdog, no panic, the race log is empty, verdicts are ones a sequential order allows (second certificate always revoked; first certificate ok, or revoked only if the responder flips; never an error while the responder is reachable). Non-trivial: the responder was asked more than once (the cache expired during the run).",
 	Assumptions: []string{"schedules are sampled, not enumerated"},
 }
 
